@@ -23,6 +23,7 @@ var InjectKinds = []string{
 	"pod-missing-podgroup", "pod-huge-request", "node-no-labels-zero", "node-bad-gpu-labels", "node-negative", "br-missing-pod",
 	"br-missing-node", "delete-queue-of-running", "delete-podgroup-of-running", "delete-node-of-running",
 	"pvc-no-storageclass", "topology-no-levels", "pg-unknown-topology", "pg-unknown-topology-level", "subgroup-unknown-topology",
+	"topology-root-collision",
 }
 
 var badNumbers = []string{"NaN", "Inf", "-Inf", "-1", "0", "1e309", "abc", "0x1p-2", " 0.5", "0.5 ", "1e-400", "99999999999999999999", "+0.5", "-0", ""}
@@ -160,6 +161,28 @@ func (r *Run) inject(kind string, n int) {
 			_ = r.API.Tracker.Add(pg)
 			_ = r.API.Tracker.Add(newPod(name+"-p0", name, nil))
 		}
+	case "topology-root-collision":
+		// a level whose node label key, or a node whose label value at the first level, is spelled like the topology
+		// plugin's own root domain ("root"): the level's domains must not be mistaken for the root of the tree
+		key := "kaisim/zone"
+		if n%2 == 0 {
+			key = "root"
+		}
+		nd := BuildNode(NodeSpec{Name: name, CPUm: 4000, MemMi: 4096, Pods: 10})
+		nd.Labels[key] = "root"
+		_ = r.API.Tracker.Add(nd)
+		levels := []string{key}
+		if n%3 == 0 {
+			levels = append(levels, "kubernetes.io/hostname")
+		}
+		_ = r.API.Tracker.Add(BuildTopology(TopologySpec{Name: name + "-topo", Levels: levels}))
+		pg := newPG(name, healthyQueue, 1)
+		pg.Spec.TopologyConstraint = schedv2alpha2.TopologyConstraint{Topology: name + "-topo", RequiredTopologyLevel: levels[len(levels)-1]}
+		if n%5 == 0 {
+			pg.Spec.TopologyConstraint.PreferredTopologyLevel = levels[0]
+		}
+		_ = r.API.Tracker.Add(pg)
+		_ = r.API.Tracker.Add(newPod(name+"-p0", name, nil))
 	case "pg-min-zero", "pg-min-negative", "pg-min-gt-size":
 		min := map[string]int32{"pg-min-zero": 0, "pg-min-negative": -3, "pg-min-gt-size": 7}[kind]
 		pg := newPG(name, healthyQueue, min)
